@@ -510,7 +510,9 @@ func keycred(c *vf.Ctx, T lattice) {
 		}
 	}
 	// Go time -> binary key-credential time (ticks since 1601, little endian), whole unsigned range
-	instants(T, rt.Epoch1601, func(p uint64) bool { return p != 0 && p != ^uint64(0) }, func(t time.Time, floor *big.Int, rem int64, win, form string) {
+	instants(T, rt.Epoch1601, func(p uint64) bool { return p != ^uint64(0) }, func(t time.Time, floor *big.Int, rem int64, win, form string) {
+		// (tick 0 - 1601-01-01 itself and the 99 ns after it - is an instant like any other in this direction: eight zero
+		// bytes; only the way back is excluded below, because a zero tick count means "now" to NewDateTime)
 		c.Case([]byte("kc.t2b"), []byte(t.String()))
 		for _, v := range versions {
 			src := key.KeySource_AD
@@ -668,6 +670,81 @@ func uuids(c *vf.Ctx, T lattice) {
 				c.Check("C15/"+g.name+"/identifier-handed-out-earlier-keeps-its-time-after-later-Marshal-calls", !pn && !p2 && err == nil && rt.SameInstant(gt, sec, nsec), func() string {
 					return fmt.Sprintf("one %s value: Time set and Marshal called %d times; the identifier returned by call %d (Time=%d) now reads %x and its GetTime() = %s, want %s (err=%v panic=%v %s %s)", g.name, len(held), i+1, times[i], b, showT(gt), showI(sec, nsec), err, pn || p2, msg, where)
 				})
+			}
+		}
+	}
+	// SetTime on a value that already carries a time (set before, or decoded): the new instant replaces it whatever
+	// the order of the two - later, equal, earlier. All ordered pairs of a small set of instants.
+	{
+		var ps []uint64
+		for _, p := range T.all {
+			if in60(p) && p != 0 {
+				ps = append(ps, p)
+			}
+		}
+		if len(ps) > 10 {
+			ps = append(append([]uint64{}, ps[:5]...), ps[len(ps)-5:]...)
+		}
+		ps = append(ps, 0x01B21DD213814000, 0x01B21DD213814001) // 1970-01-01 and one tick later
+		type tv struct {
+			name  string
+			fresh func(t time.Time) uint64
+			twice func(first uint64, decoded bool, t time.Time) uint64
+		}
+		tvs := []tv{
+			{"uuid_v1", func(t time.Time) uint64 { u := uuid_v1.UUIDv1{}; u.SetTime(t); return u.Time },
+				func(first uint64, decoded bool, t time.Time) uint64 {
+					u := uuid_v1.UUIDv1{}
+					if decoded {
+						src := uuid_v1.UUIDv1{}
+						src.Time = first
+						b, _ := src.Marshal()
+						u.FromBytes(b)
+					} else {
+						src := uuid_v1.UUIDv1{}
+						src.Time = first
+						u.SetTime(src.GetTime())
+					}
+					u.SetTime(t)
+					return u.Time
+				}},
+			{"uuid_v2", func(t time.Time) uint64 { u := uuid_v2.UUIDv2{}; u.SetTime(t); return u.Time },
+				func(first uint64, decoded bool, t time.Time) uint64 {
+					u := uuid_v2.UUIDv2{}
+					if decoded {
+						src := uuid_v2.UUIDv2{}
+						src.Time = first
+						b, _ := src.Marshal()
+						u.FromBytes(b)
+					} else {
+						src := uuid_v2.UUIDv2{}
+						src.Time = first
+						u.SetTime(src.GetTime())
+					}
+					u.SetTime(t)
+					return u.Time
+				}},
+		}
+		for _, v := range tvs {
+			for _, first := range ps {
+				for _, second := range ps {
+					for _, decoded := range []bool{false, true} {
+						var want, got uint64
+						var when time.Time
+						pn, msg, where := vf.Try(func() {
+							src := uuid_v1.UUIDv1{}
+							src.Time = second
+							when = src.GetTime()
+							want = v.fresh(when)
+							got = v.twice(first, decoded, when)
+						})
+						c.Evals(1)
+						c.Case([]byte("uuid.settime2"), []byte(fmt.Sprint(v.name, first, second, decoded)))
+						c.Check("C15/"+v.name+"/history/SetTime-on-a-value-that-carried-another-time-stores-what-a-fresh-value-stores", !pn && got == want, func() string {
+							return fmt.Sprintf("%s carrying Time=%d (%s), then SetTime(%s): Time=%d; a fresh value stores %d (panic=%v %s %s)", v.name, first, map[bool]string{false: "set", true: "decoded"}[decoded], showT(when), got, want, pn, msg, where)
+						})
+					}
+				}
 			}
 		}
 	}
